@@ -354,6 +354,9 @@ def run(pid, tier="quick", replay=None):
         except Exception:
             ctx.problems.append(dict(kind="harness", detail="extra() crashed: " + traceback.format_exc(limit=5)))
 
+    # a property-specific extra() hook may name inputs on which it saw the property fail (additive: C14/C19 sweeps)
+    suspects = list(getattr(ctx, "extra_suspects", [])) + suspects
+
     # ---- verdict
     if ctx.problems or replay:
         inp, fail, tried = _search_failure(mod, ctx, suspects, [c["input"] for c in cases], known_sigs)
